@@ -176,6 +176,15 @@ func stallSignature() string {
 	return strings.Join(sigs, " & ")
 }
 
+var watchGate chan struct{}
+
+// runningGroups: raft groups whose ready loop runs in this process
+func runningGroups() int {
+	buf := make([]byte, 1<<20)
+	n := runtime.Stack(buf, true)
+	return strings.Count(string(buf[:n]), "anndb/storage/raft.(*RaftGroup).run(")
+}
+
 // waitingProposers: goroutines that wait inside DatasetManager for the outcome of a proposed catalogue change
 func waitingProposers() int {
 	buf := make([]byte, 1<<20)
@@ -335,6 +344,26 @@ func main() {
 				dm.Delete(ctx, id)
 			}()
 			time.Sleep(5 * time.Millisecond)
+		case st == "hold-watch":
+			// the allocator loop has received a watch update and is about to read the partition's replica set: it is
+			// held there until "release-watch" (the apply goroutine goes on meanwhile - what a fast replay does)
+			held := make(chan struct{})
+			watchGate = held
+			storage.VerifGate = func(point string, i int) {
+				if point == "allocator.watch" {
+					if c := watchGate; c != nil {
+						select {
+						case <-c:
+						case <-time.After(5 * time.Second):
+						}
+					}
+				}
+			}
+		case st == "release-watch":
+			if watchGate != nil {
+				close(watchGate)
+				watchGate = nil
+			}
 		case st == "settle":
 			dl := time.Now().Add(3 * time.Second)
 			for time.Now().Before(dl) && g.pending() > 0 {
@@ -405,12 +434,40 @@ func main() {
 			}
 		}
 	}
+	// every raft group that runs belongs to a partition of a dataset of the catalogue that has it loaded: a group
+	// that outlives its dataset, or a second one for the same partition, is a leak (it keeps ticking, campaigning
+	// and writing the partition's log store)
+	extra := 0
+	if stalled == "" {
+		for dl := time.Now().Add(3 * time.Second); ; time.Sleep(20 * time.Millisecond) {
+			loaded := 0
+			if lst, err := dm.List(context.Background(), false); err == nil {
+				for _, m := range lst {
+					id, _ := uuid.FromBytes(m.GetId())
+					if ds, err := dm.Get(id); err == nil {
+						for i := range m.GetPartitions() {
+							if ds.VerifRaft(i) != nil {
+								loaded++
+							}
+						}
+					}
+				}
+			}
+			extra = runningGroups() - loaded
+			if extra <= 0 || time.Now().After(dl) {
+				break
+			}
+		}
+		if extra < 0 {
+			extra = 0
+		}
+	}
 	st := 0
 	if stalled != "" {
 		st = 1
 	}
 	enc.Encode(map[string]interface{}{"ev": "ctrl", "name": sc.Name, "steps": sc.Steps, "entries": nsteps, "applied": g.applied,
-		"pending": g.pending(), "stalled": st, "signature": stalled, "serving": serving, "stale": stale})
+		"pending": g.pending(), "stalled": st, "signature": stalled, "serving": serving, "stale": stale, "extragroups": extra})
 	f.Sync()
 	os.Exit(0)
 }
